@@ -57,8 +57,10 @@ def conversion_lts(run, n, B):
     c = core.cfg(constants=dict(N=n, B=B, MaxSteps=1), invariants=["PointFixed", "InModel"], view="View",
                  action_constraints=["Emit"])
     r = run.tlc("hyp/HypPoints.tla", c, name="HypPoints_n%d" % n, workers=min(8, core.NCPU))
-    far, farpairs = None, None
+    far, farpairs, near = None, None, None
     for line in r.stdout.splitlines():
+        if line.startswith('"NEARPAIRS '):
+            near = json.loads(json.loads(line)[10:])
         if line.startswith('"FAR '):
             far = json.loads(json.loads(line)[4:])
         if line.startswith('"FARPAIRS '):
@@ -66,7 +68,36 @@ def conversion_lts(run, n, B):
     if far is None or farpairs is None:
         raise core.MachineryFailure("no FAR tables printed by HypPoints.tla")
     replay_far(run, n, far, farpairs)
+    replay_near(run, n, near or [])
     return r.emits
+
+
+def replay_near(run, n, near):
+    """nearly coincident pairs: the reported distance must be the small positive exact distance (not 0, not NaN) and
+    agree with the closed forms of the conformal models evaluated on the library's own coordinates"""
+    H = hyp()
+    for (x, y, eps) in near:
+        e = eps[0] / eps[1]                      # cosh d - 1, exact
+        d_want = float(np.log1p(e + np.sqrt(e * (2 + e))))
+        key = "near:n=%d:x=%s:y=%s" % (n, x, y)
+        run.case(key=key, action="distance_near")
+        try:
+            P, Q = H.Point(np.array(x, float)), H.Point(np.array(y, float))
+            with np.errstate(all="ignore"):
+                d1, d2 = float(P.distance(Q)), float(Q.distance(P))
+                p, q = np.asarray(P.coords("poincare")), np.asarray(Q.coords("poincare"))
+                cp = 2 * ((p - q) ** 2).sum() / ((1 - (p ** 2).sum()) * (1 - (q ** 2).sum()))       # cosh - 1
+            # arccosh near 1 is square-root conditioned: eps_machine / e relative error in cosh - 1
+            tol = max(1e-6, 4e-16 / e)
+            bad = None
+            if not (np.isfinite(d1) and abs(d1 - d_want) <= tol * d_want and abs(d2 - d_want) <= tol * d_want):
+                bad = ("distance_near.value", "d = %r / %r, exact %r" % (d1, d2, d_want))
+            elif not abs(cp - e) <= 1e-6 * e:
+                bad = ("closed_form_near.poincare", "cosh-1 from library coordinates %r, exact %r" % (cp, e))
+        except Exception as ex:
+            bad = ("raised:distance_near", "%s: %s" % (type(ex).__name__, ex))
+        if bad:
+            run.violation(key, bad[0], dict(n=n, x=x, y=y, observed=bad[1]))
 
 
 def replay_far(run, n, far, farpairs):
